@@ -390,6 +390,10 @@ func fillMode(seed uint64, n, only int) {
 			continue
 		}
 		r := root.Fork(uint64(i))
+		if i%3 == 2 {
+			curvedFillCase(o, r, i)
+			continue
+		}
 		// nested / side-by-side convex contours with known interior witnesses
 		type cont struct {
 			pts []gen.IPt
@@ -406,7 +410,7 @@ func fillMode(seed uint64, n, only int) {
 				for _, v := range pr {
 					x0, y0, x1, y1 = min(x0, v.X), min(y0, v.Y), max(x1, v.X), max(y1, v.Y)
 				}
-				if x1-x0 >= 6 && y1-y0 >= 6 {
+				if len(pr) == 4 && x1-x0 >= 6 && y1-y0 >= 6 { // only inside a rectangle: the box of a triangle is not inside it
 					c := gen.Rect(x0+2, y0+2, x1-2, y1-2)
 					if r.Bool() {
 						c = gen.Reverse(c)
@@ -465,4 +469,112 @@ func fillMode(seed uint64, n, only int) {
 		term := fmt.Sprintf("mkFill06 %s 1%%Z %s %s %s", cq.List(csS), cq.List(wS), cq.List(ccw), cq.List(filling))
 		o.Emit(out.Case{I: i, Fam: fmt.Sprintf("fill-%d", len(cs)), Coq: term, Desc: map[string]interface{}{"path": p.String(), "go_ccw": ccw, "go_filling": filling}})
 	}
+}
+
+// ---------------------------------------------------------------------------------------------------------
+// CCW / Filling on ONE simple curved contour: crescents and lenses whose extreme point (right-most, left-most, top or
+// bottom) is a cusp where the boundary doubles back with parallel tangents, drops, and ordinary convex curved shapes.
+// The oracle is the signed area of a dense sampling (the judge checks that the sampling is simple and that the witness
+// is inside and far from it).
+
+func curvedFillCase(o *out.W, r *rng.R, i int) {
+	g := func(lo, hi int) float64 { return float64(r.Range(lo*4, hi*4)) / 4 }
+	p := &canvas.Path{}
+	var wit canvas.Point
+	fam := ""
+	switch r.Intn(4) {
+	case 0: // crescent above the axis with a cusp at (w,0): both curves arrive with horizontal tangents
+		w, h1 := g(6, 12), g(3, 8)
+		h2 := g(1, int(h1)-1)
+		u, v := g(2, int(w)-1), g(2, int(w)-1)
+		if r.Bool() { // quadratics
+			p.MoveTo(0, h1)
+			p.QuadTo(u, 0, w, 0)
+			p.QuadTo(v, 0, 0, h2)
+		} else { // cubics with the inner control points on the axis
+			p.MoveTo(0, h1)
+			p.CubeTo(g(0, 2), h1/2, u, 0, w, 0)
+			p.CubeTo(v, 0, g(0, 2), h2/2, 0, h2)
+		}
+		p.Close()
+		wit = canvas.Point{X: 0.25, Y: (h1 + h2) / 2}
+		fam = "fill-curved-crescent-cusp"
+	case 1: // lens: cusp at (w,0), one curve above and one below the axis
+		w, h1, h2 := g(6, 12), g(2, 8), g(2, 8)
+		u, v := g(2, int(w)-1), g(2, int(w)-1)
+		p.MoveTo(0, h1)
+		p.QuadTo(u, 0, w, 0)
+		p.QuadTo(v, 0, 0, -h2)
+		p.Close()
+		wit = canvas.Point{X: 0.25, Y: (h1 - h2) / 2}
+		fam = "fill-curved-lens-cusp"
+	case 2: // drop: a cubic loop back to its start, the start is a corner
+		w, h := g(4, 10), g(2, 6)
+		p.MoveTo(0, 0)
+		p.CubeTo(w, h, w, -h, 0, 0)
+		p.Close()
+		wit = canvas.Point{X: w / 2, Y: 0}
+		fam = "fill-curved-drop"
+	default: // ellipse as two arcs, rotated
+		rx, ry := g(2, 8), g(1, 6)
+		rot := rng.Pick(r, []float64{0, 30, 60, 90, 120, 150})
+		cr, sr := math.Cos(rot*math.Pi/180), math.Sin(rot*math.Pi/180)
+		sweep := r.Bool()
+		p.MoveTo(rx*cr, rx*sr)
+		p.ArcTo(rx, ry, rot, false, sweep, -rx*cr, -rx*sr)
+		p.ArcTo(rx, ry, rot, false, sweep, rx*cr, rx*sr)
+		p.Close()
+		wit = canvas.Point{X: 0, Y: 0}
+		fam = "fill-curved-ellipse"
+	}
+	// put the cusp at the right, left, top or bottom; both orientations; translate
+	m := canvas.Identity
+	switch r.Intn(4) {
+	case 1:
+		m = m.ReflectX()
+	case 2:
+		m = canvas.Matrix{{0, -1, 0}, {1, 0, 0}} // quarter turn, exact
+	case 3:
+		m = canvas.Matrix{{0, 1, 0}, {-1, 0, 0}}
+	}
+	m = canvas.Identity.Translate(g(-5, 5), g(-5, 5)).Mul(m)
+	p = p.Transform(m)
+	wit = m.Dot(wit)
+	if r.Bool() {
+		p = p.Reverse()
+	}
+	segs, err := pd.Decode(p.Data())
+	if err != nil || len(segs) == 0 {
+		return
+	}
+	polys, _ := curve.Sample(segs, 40)
+	var ccw, filling []string
+	msg := safe(func() {
+		ccw = append(ccw, cq.Bool(p.CCW()))
+		for rule := 0; rule < 4; rule++ {
+			var fs []string
+			for _, f := range p.Filling(canvas.FillRule(rule)) {
+				fs = append(fs, cq.Bool(f))
+			}
+			filling = append(filling, cq.List(fs))
+		}
+	})
+	if msg != "" {
+		o.Emit(out.Case{I: i, Fam: "fill-panic", Coq: "", Desc: map[string]interface{}{"path": p.String(), "panic": msg}})
+		return
+	}
+	var csS []string
+	for _, c := range polys {
+		var vs []string
+		for k, v := range c {
+			if k > 0 && cunits(v.X) == cunits(c[k-1].X) && cunits(v.Y) == cunits(c[k-1].Y) {
+				continue
+			}
+			vs = append(vs, cq.Pair(cq.Z(cunits(v.X)), cq.Z(cunits(v.Y))))
+		}
+		csS = append(csS, cq.List(vs))
+	}
+	g2 := int64(1) << (2 * (cub - 7))
+	term := fmt.Sprintf("mkFill06 %s %s %s %s %s", cq.List(csS), cq.Z(g2), cq.List([]string{cq.Pair(cq.Z(cunits(wit.X)), cq.Z(cunits(wit.Y)))}), cq.List(ccw), cq.List(filling))
+	o.Emit(out.Case{I: i, Fam: fam, Coq: term, Desc: map[string]interface{}{"path": p.String(), "go_ccw": ccw, "go_filling": filling}})
 }
